@@ -196,6 +196,15 @@ def gen_scripts(prop, tier, rng):
         for _ in range(max(2, n // 8)):
             for kind in gen.KINDS:
                 S.append(gen.long_history(rng, kind))
+        # nearest-point selection with few sub-filters, tiny chunks, hundreds of calls at an off-grid ratio: a
+        # position that is re-quantised at every chunk boundary drifts (seeded change C07e)
+        for _ in range(max(2, n // 5)):
+            for kind in ("SincFixedIn", "SincFixedOut", "SincFixedOut"):
+                h = gen.long_history(rng, kind)
+                h[0]["interp"] = "Nearest"
+                h[0]["F"] = rng.choice([2, 3, 16])
+                h[0]["chunk"] = rng.choice([1, 2, 3])
+                S.append(h)
     elif prop == "C09":
         for _ in range(n):
             for kind in gen.KINDS:
